@@ -197,6 +197,10 @@ def control_family() -> list[dict]:
     fam.append(P("mutexsusp", [S("b", mutex="m", tasks=[T("b.1", "suspend")]), S("c", mutex="m", tasks=[T("c.1"), T("c.2")])]))
     fam.append(P("choice2", [S("a"), S("b", ["a"], choice="g"), S("c", ["a"], choice="g"), S("d", ["b"]), S("e", ["c"])]))
     fam.append(P("choice3", [S("b", choice="g"), S("c", choice="g"), S("e", choice="g", tasks=[T("e.1"), T("e.2")])]))
+    # builder-built tasks: a claimed stage has no task rows until its plan commit, so a kill in between leaves a zombie
+    # whose redelivered StartStage goes through the claim transaction (and its claim rows) a second time
+    fam.append(P("choicelazy", [S("a"), S("b", ["a"], choice="g", lazy=True), S("c", ["a"], choice="g", lazy=True), S("d", ["b"])]))
+    fam.append(P("mutexlazy", [S("b", mutex="m", lazy=True, tasks=[T("b.1"), T("b.2")]), S("c", mutex="m", lazy=True)]))
     return fam
 
 
